@@ -111,7 +111,7 @@ func newState(contract bool) *st {
 	})
 	s.strat = compose.NewDeviceStrategy(s.w.Cfg)
 	// a registered PUBLIC client allowed the device grant: it is identified without a secret and started no flow
-	s.w.Store.Clients["c3"] = &fosite.DefaultClient{ID: "c3", Public: true,
+	s.w.Store.Clients["C1"] = &fosite.DefaultClient{ID: "C1", Public: true,
 		GrantTypes: []string{grantType, "refresh_token"}, Scopes: []string{"offline", "photos", "mail", "openid"},
 		Audience: []string{"https://api.example/v1"}}
 	return s
@@ -211,7 +211,7 @@ func (s *st) poll(f *flow, tag string, client string, secretIdx int, kind int) b
 	zz.Observe(tag+".err", name)
 	ok := err == nil
 
-	authOK := (client == "c1" && secretIdx == 0) || (client == "c2" && secretIdx == 1) || client == "c3"
+	authOK := (client == "c1" && secretIdx == 0) || (client == "c2" && secretIdx == 1) || client == "C1"
 	if !authOK {
 		zz.Cover(tag+":unauthenticated", true)
 		zz.Assert(!ok, tag+": no tokens without client authentication")
